@@ -56,7 +56,9 @@ func (c *ServiceContext) Clone() Context {
 // GetServiceContext returns the *core.ServiceContext bound to the context.
 func GetServiceContext(ctx context.Context) *ServiceContext {
 	if c, ok := FromContext(ctx); ok {
-		return c.(*ServiceContext)
+		if sc, ok := c.(*ServiceContext); ok {
+			return sc
+		}
 	}
 	return nil
 }
